@@ -45,5 +45,8 @@ bool c11_header_ok(const LHAFileHeader *h, std::string &why);
 // terminal invariant of C18
 bool c18_output_ok(const std::string &out, size_t *badpos);
 
+// re-arms the per-run CPU watchdog (call before each evaluation of a multi-evaluation run)
+void sim_watchdog_kick();
+
 // mixes a run's counters into nontrivial/trace
 uint64_t finish_trace();
